@@ -18,6 +18,7 @@ namespace hv
         using BS = TSB<"HvBS", Field<"a", TS<Int>>, Field<"s", TSS<Int>>>;
         using BL = TSB<"HvBL", Field<"a", TS<Int>>, Field<"l", TSL<TS<Int>, 2>>>;   // composite fields that can be partially valid
         using BB = TSB<"HvBB", Field<"a", TS<Int>>, Field<"q", B2>>;
+        using BW = TSB<"HvBW", Field<"a", TS<Int>>, Field<"w", TSW<Int, 3, 2>>>;
 
         struct WOp { std::string kind; std::string arg; };
         inline std::map<long long, std::map<long long, std::vector<WOp>>> g_wscript;   // writer id -> offset -> ops
